@@ -562,6 +562,25 @@ def _establish(ctx: Ctx) -> None:
     ctx.ob(R, qi, qi.node, ok,
            "QAP Instance rejects non-square distances and a flow matrix of "
            "another shape", construct="QAP matrix shapes")
+    # FEA frequency table: one cell per possible tour length 0..UB
+    fs = repo.func(M + "tsp.fea1p1_revn", "TSPFEA1p1revn.solve")
+    okh = False
+    hn: ast.AST = fs.node
+    for nd in ast.walk(fs.node):
+        if isinstance(nd, ast.Call) and isinstance(
+                nd.func, ast.Attribute) and nd.func.attr in (
+                "zeros", "empty") and nd.args:
+            src = ast.unparse(nd.args[0]).replace(" ", "")
+            if "tour_length_upper_bound" in src:
+                hn = nd
+                okh = src.endswith("tour_length_upper_bound+1") or \
+                    src.startswith("1+")
+    ctx.ob(R, fs, hn, okh,
+           "the FEA's frequency table has tour_length_upper_bound + 1 "
+           "cells (the kernel indexes it with lengths 0..UB)" if okh else
+           "the FEA's frequency table is not sized tour_length_upper_bound "
+           "+ 1: the kernel's h[y] can reach beyond its end",
+           construct="len(h) = UB + 1")
     # j_from_ode guards
     jf = repo.func(M + "dynamic_control.ode", "j_from_ode")
     g = [ast.unparse(nd.test) for nd in ast.walk(jf.node)
